@@ -19,7 +19,7 @@ class Workload:
 
 
 def build(rng, casedir, index, tier, stable=None, size=None, nrec=None, tags="safe", offsets="any",
-          mode=None, name_space=None, long_lines=False, long_nodes=None, unmapped=False):
+          mode=None, name_space=None, long_lines=False, long_nodes=None, unmapped=False, offset_ref=False, dotdot=False):
     w = Workload()
     if long_nodes is None:  # now and then segments of hundreds of kilobases (lengths only, no sequences in the file)
         long_nodes = rng.random() < 0.03
@@ -30,6 +30,16 @@ def build(rng, casedir, index, tier, stable=None, size=None, nrec=None, tags="sa
     if long_nodes:
         rgfa.stretch(g, rng, rng.choice([9000, 40000]), seq=False)
     w.long_nodes = long_nodes
+    w.offset_ref = False
+    if offset_ref:
+        # a region extract of a larger graph (e.g. the MHC cut out of chr6): the reference contigs keep
+        # their original coordinates, so they do not start at 0 and the sum of their segment lengths
+        # says nothing about where their coordinates lie
+        for c in g.ref_contigs():
+            shift = rng.choice([1000, 29_000_000, rng.randint(1, 10 ** 7)])
+            for n in g.contig_nodes(c):
+                n.so += shift
+        w.offset_ref = True
     w.g = g
     w.coords = rgaf.Coords(g)
     w.gfa = g.write(os.path.join(casedir, vary_name(rng, "g.gfa") + (".gz" if rng.random() < 0.2 else "")), rng=rng,
@@ -71,6 +81,17 @@ def build(rng, casedir, index, tier, stable=None, size=None, nrec=None, tags="sa
     w.layout = rng.choice(["standard", "tiny", "tiny", "line_start"])
     w.gaf = os.path.join(casedir, vary_name(rng, "a.gaf") + ("" if w.mode == "plain" else ".gz"))
     w.final_newline = rng.random() >= 0.15
+    w.dotdot = False
+    if dotdot and len(lines) >= 2:
+        # the GAF is named through a symlinked directory and '..' (results -> /scratch/run7/results, file
+        # addressed as results/../reads.gaf): the kernel follows the link before it goes up, a lexical
+        # clean-up of the name does not - and there another GAF of the same name lies (an older run)
+        name = os.path.basename(w.gaf)
+        os.makedirs(os.path.join(casedir, "real", "sub"))
+        os.symlink(os.path.join(casedir, "real", "sub"), os.path.join(casedir, "lnk"))
+        ggaf.write_gaf(os.path.join(casedir, name), lines[::-1][:max(1, len(lines) - 1)], mode=w.mode, rng=rng, layout=w.layout, final_newline=True)
+        w.gaf = os.path.join(casedir, "lnk", "..", name)
+        w.dotdot = True
     ggaf.write_gaf(w.gaf, lines, mode=w.mode, rng=rng, layout=w.layout, final_newline=w.final_newline)
     w.blocks = bgzf.BgzfIndex(w.gaf).data_blocks() if w.mode != "plain" else 0
     w.aligned = set().union(*w.nodesets) if w.nodesets else set()
